@@ -35,7 +35,8 @@ class Gen:
         r = self.r
         k = r.random()
         nick = r.choice(self.names())
-        chan = r.choice([CHAN, CHAN, "#other", "#new%d" % r.randrange(3), "&loc", "#", "&", "#fz,#fz", "##", "#é"])
+        chan = r.choice([CHAN, CHAN, "#other", "#new%d" % r.randrange(3), "&loc", "#", "&", "#fz,#fz", "##", "#é",
+                         "#pre", "#pre"])  # the channel that comes from the configuration, with configured lists
         pool_generic = [
             nick, chan, "%s,%s" % (nick, nick), "%s,%s" % (chan, chan), self.me, "", "x", "*", "?", "**?*?**",
             "A" * 500, "é" * 200, "日本語", "0", "-1", "18446744073709551616", "99999999999999999999999",
@@ -73,6 +74,9 @@ class Gen:
 
     def line(self):
         r = self.r
+        if getattr(self, "script", None):
+            out = self.script.pop(0)
+            return out, out.split(" ")[0].upper(), len(out.split(" ")) - 1
         if self.corpus and r.random() < 0.25:
             return self.mutate(r.choice(self.corpus))
         verb = r.choice(VERBS)
@@ -224,6 +228,16 @@ class Session:
         a = self.clients[self.me]
         b1, b2, fo = self.peers
         last_codes = None
+        if self.state not in ("unregistered", "midcap") and self.r.random() < 0.4:
+            # the victim is also on the channel that comes from the configuration (its lists were never set by MODE)
+            a.send("JOIN #pre")
+            a.ping("pre")
+            # every query and every list of that channel once, in random order, before the random lines
+            gen.script = ["MODE #pre +b", "MODE #pre +e", "MODE #pre +I", "MODE #pre b", "MODE #pre e", "MODE #pre I", "MODE #pre",
+                          "MODE #pre +beI", "TOPIC #pre", "NAMES #pre", "WHO #pre", "LIST #pre", "MODE #pre -b *!*@10.*",
+                          "MODE #pre +b", "PRIVMSG #pre :moderated", "MODE #pre +b *!*@10.*", "MODE #pre -e *!*@10.1.*",
+                          "MODE #pre +e", "INVITE %s #pre" % b1, "KICK #pre vic0", "PART #pre", "JOIN #pre", "MODE #pre +I"]
+            self.r.shuffle(gen.script)
         for i in range(nlines):
             line, verb, arity = gen.line()
             self.n += 1
@@ -384,7 +398,9 @@ def worker(args):
     cfg = dict(operators=[{"name": "root", "password": sut.password_hash(binary, "rootpw")},
                           {"name": "adm", "password": sut.password_hash(binary, "admpw"), "mask": "*!*@10.*"}],
                max_joins=rng.choice([None, 2, 5]), log_level="INFO",
-               channels=[{"name": "#pre", "modes": {"moderated": True, "operators": ["vic0"]}}])
+               channels=[{"name": "#pre", "topic": "from the configuration",
+                          "modes": {"moderated": True, "operators": ["vic0"], "ban": ["*!*@10.*", "zz*!*@*"],
+                                    "exception": ["*!*@10.1.*"], "invite_exception": ["yy*!*@*"]}}])
     if rng.random() < 0.5:
         # the victim's user name is a predefined user: it is +r and may drop / take back that mode
         cfg["users"] = [{"name": "vic", "nick": "vic-nick"}]
